@@ -156,7 +156,17 @@ func init() {
 						// a stopping failure raised through a handle the setup created for a component of its own
 						p.SetupFault = pick(r, engine.BOtherFailNow, engine.BOtherRequire)
 					}
+					if (i/len(endings))%2 == 0 {
+						// a setup that reports a failure without stopping (an assert-style check) and hands back its iteration
+						// function all the same: a failed setup like any other
+						p.SetupFault = pick(r, engine.BFail, engine.BError, engine.BErrorf, engine.BAssert)
+					}
 					p.SetupFaultPos = r.IntN(ns + 1)
+					// (a run that wrongly goes on after its setup failed ends by itself and is judged)
+					p.Spec.MaxDurationMS = 1200
+					if mode == "file" || mode == "filespan" {
+						p.Spec.YAML = strings.Replace(p.Spec.YAML, "max-duration: 60s", "max-duration: 1200ms", 1)
+					}
 				case "cancel-setup":
 					// the run is cancelled while setup is executing (after some of its cleanups were registered);
 					// half of these setups also fail
